@@ -400,10 +400,11 @@ def select__descendant_path(self: XPathToken, context: ta.ContextType = None) \
             context.item = context.root  # A fragment or a schema node
 
         items = set()
+        atomic_values = []
         for _ in context.iter_descendants():
             for result in self[0].select(context):
                 if not isinstance(result, XPathNode):
-                    items.add(result)
+                    atomic_values.append(result)
                 elif result in items:
                     pass
                 elif isinstance(result, ElementNode):
@@ -412,7 +413,13 @@ def select__descendant_path(self: XPathToken, context: ta.ContextType = None) \
                 else:
                     items.add(result)
 
-        yield from sorted(items, key=node_position)
+        if atomic_values:
+            if items:
+                msg = "the last step of a path returns both nodes and atomic values"
+                raise self.error('XPTY0018', msg)
+            yield from atomic_values
+        else:
+            yield from sorted(items, key=node_position)
 
 
 ###
